@@ -3,6 +3,7 @@ CONSTANTS
   MaxLen = 4
   ExcKinds = {"rej"}
   Suppressed = {"ALL"}
+  NoneAcceptsAll = FALSE
   Rotation = "none_first"
 POSTCONDITION Consumed
 CHECK_DEADLOCK FALSE
